@@ -1016,8 +1016,23 @@ fn judge_run(rep: &mut Rep, st: &mut Stats, driver: Driver, cin: &Entries, sin: 
 	if nontrivial && driver == Driver::Zip {
 		st.distinct.add(&(client, server));
 	}
-	let tag = format!("{}/{}", label.split('/').next().unwrap_or(label), driver.name());
+	let lists = |b: &Vec<u8>| cfmodel::parse(b).ok().map(|p| vcore::json!({
+		"interfaces": p.class.interfaces.iter().map(|i| i.to_string_lossy()).collect::<Vec<_>>(),
+		"fields": p.class.fields.iter().map(|f| format!("{} {}", f.name.to_string_lossy(), f.desc.to_string_lossy())).collect::<Vec<_>>(),
+		"methods": p.class.methods.iter().map(|m| format!("{}{}", m.name.to_string_lossy(), m.desc.to_string_lossy())).collect::<Vec<_>>(),
+	}));
+	let differing: Vec<(&str, &Vec<u8>, &Vec<u8>)> = cin.iter().filter_map(|(n, i)| match (i, smap.get(n.as_str())) {
+		(Item::File(c), Some(Item::File(s))) if n.ends_with(".class") && c != s => Some((n.as_str(), c, s)),
+		_ => None,
+	}).collect();
+	let tag = format!("{}/{}/{}", label.split('/').take(2).collect::<Vec<_>>().join("/").split("/subset").next().unwrap_or(label), driver.name(), if differing.is_empty() { "no-differing-class" } else { "differing-class" });
 	st.sample(&tag, || vcore::json!({
+		"differing_classes": differing.iter().map(|(n, c, s)| vcore::json!({
+			"name": n,
+			"client": lists(c),
+			"server": lists(s),
+			"merged": res.iter().find(|(m, _)| m == n).and_then(|(_, i)| match i { Item::File(b) => lists(b), Item::Dir => None }),
+		})).collect::<Vec<_>>(),
 		"label": label,
 		"driver": driver.name(),
 		"client_entries": cin.iter().map(|(n, _)| n.clone()).collect::<Vec<_>>(),
